@@ -119,6 +119,8 @@ type Contract struct {
 	InlineCallees []string
 	AbstractCallees []string
 	PathLimit     int
+	IfaceRecvName string     // implements: the name the interface contract uses for its receiver ...
+	IfaceRecvType types.Type // ... and the interface type it has there
 	ImplOf        string // this method implements the contract of an interface method (checked against it)
 	StableTypes   []string   // struct types none of whose fields an abstracted (unknown) callee is assumed to write
 	Stable        []ModEntry // locations assumed not to be written by abstracted (unknown) callees
@@ -170,7 +172,7 @@ type Lemma struct {
 
 var clauseKW = []string{"assume-at", "assumes", "stable-types", "stable", "loop-call", "requires", "ensures-on-panic", "ensures", "modifies", "loop", "assert-at", "trusted", "inline", "abstract-all", "abstract-calls", "may-panic",
 	"allow-send", "arith", "let", "noalloc", "call-inline", "call-abstract", "callback", "path-limit", "implements", "var", "call", "assume", "assert", "havoc"}
-var topKW = []string{"func", "spec", "ghost", "axiom", "lemma", "package", "table", "immutable"}
+var topKW = []string{"func", "spec", "ghost", "axiom", "lemma", "package", "table", "immutable", "closed"}
 
 type rawItem struct {
 	head  string
@@ -312,6 +314,25 @@ func (w *World) loadContractFile(path string, pkg *types.Package, goFile bool) e
 			}
 			i := strings.LastIndex(f[1], ".")
 			w.immutables = append(w.immutables, Immutable{Pkg: pkg, Type: f[1][:i], Field: f[1][i+1:], File: path, Line: it.line})
+		case "closed":
+			// closed <Interface> = T1, T2, ... : the listed types are ALL implementations (checked against every loaded
+			// package); interface method calls on it are dispatched to the concrete methods
+			if pkg == nil {
+				continue
+			}
+			rest := strings.TrimSpace(strings.TrimPrefix(it.head, "closed"))
+			for _, l := range it.lines {
+				rest += " " + l
+			}
+			eq := strings.Index(rest, "=")
+			if eq < 0 {
+				return fmt.Errorf("%s:%d: closed <Interface> = T1, T2, ...", path, it.line)
+			}
+			ci := &ClosedIface{Name: strings.TrimSpace(rest[:eq]), Pkg: pkg, File: path, Line: it.line}
+			for _, tn := range strings.Split(rest[eq+1:], ",") {
+				ci.TypeNames = append(ci.TypeNames, strings.TrimSpace(tn))
+			}
+			w.closed = append(w.closed, ci)
 		case "axiom":
 			src := strings.TrimSpace(strings.TrimPrefix(it.head, "axiom"))
 			for _, l := range it.lines {
@@ -417,9 +438,13 @@ func (w *World) parseFuncContract(it rawItem, pkg *types.Package, external bool)
 		c.Params = append(c.Params, n)
 		c.ParamTypes = append(c.ParamTypes, r.Type())
 	}
+	hdrNames := headerParamNames(it.head)
 	for i := 0; i < c.Sig.Params().Len(); i++ {
 		p := c.Sig.Params().At(i)
 		n := p.Name()
+		if (n == "" || n == "_") && isIface && i < len(hdrNames) && hdrNames[i] != "" {
+			n = hdrNames[i] // an interface method declared without parameter names: the contract header names them
+		}
 		if n == "" || n == "_" {
 			n = fmt.Sprintf("arg%d", i)
 		}
@@ -944,6 +969,11 @@ func (w *World) resolveImplements() error {
 				c.Tags = append(c.Tags, t)
 			}
 		}
+		// the interface contract's receiver name denotes the receiver AS A VALUE OF THE INTERFACE TYPE
+		if ic.Sig.Recv() != nil && len(ic.Params) > 0 && c.Sig.Recv() != nil {
+			c.IfaceRecvName = ic.Params[0]
+			c.IfaceRecvType = ic.ParamTypes[0]
+		}
 		// positional parameter aliases: interface names for the implementation's parameters
 		c.ParamAliases = map[string]int{}
 		off := 0
@@ -1089,4 +1119,148 @@ func (w *World) checkImmutables() []string {
 		}
 	}
 	return bad
+}
+
+// ClosedIface: an interface whose implementing types are enumerated (closed-world dispatch)
+type ClosedIface struct {
+	Name      string
+	Pkg       *types.Package
+	TypeNames []string
+	Types     []types.Type
+	Iface     types.Type
+	File      string
+	Line      int
+}
+
+func (w *World) closedFor(t types.Type) *ClosedIface {
+	for _, c := range w.closed {
+		if c.Iface != nil && types.Identical(c.Iface, t) {
+			return c
+		}
+	}
+	return nil
+}
+
+// checkClosed resolves the declarations and verifies completeness: every named type of every loaded yorkie package whose
+// pointer or value implements the interface must be listed.
+func (w *World) checkClosed() []string {
+	var bad []string
+	for _, c := range w.closed {
+		it := w.resolveType(c.Name, c.Pkg)
+		if it == nil {
+			bad = append(bad, fmt.Sprintf("%s:%d: closed: unknown interface %s", c.File, c.Line, c.Name))
+			continue
+		}
+		iface, ok := it.Underlying().(*types.Interface)
+		if !ok {
+			bad = append(bad, fmt.Sprintf("%s:%d: closed: %s is not an interface", c.File, c.Line, c.Name))
+			continue
+		}
+		c.Iface = it
+		listed := map[string]bool{}
+		c.Types = nil
+		for _, tn := range c.TypeNames {
+			t := w.resolveType(tn, c.Pkg)
+			if t == nil {
+				bad = append(bad, fmt.Sprintf("%s:%d: closed %s: unknown type %s", c.File, c.Line, c.Name, tn))
+				continue
+			}
+			if !types.Implements(t, iface) {
+				bad = append(bad, fmt.Sprintf("%s:%d: closed %s: %s does not implement it", c.File, c.Line, c.Name, tn))
+				continue
+			}
+			c.Types = append(c.Types, t)
+			listed[t.String()] = true
+		}
+		for _, p := range w.byPath {
+			if !strings.HasPrefix(p.Types.Path(), "github.com/yorkie-team/yorkie") {
+				continue
+			}
+			sc := p.Types.Scope()
+			for _, n := range sc.Names() {
+				tn, ok := sc.Lookup(n).(*types.TypeName)
+				if !ok || tn.IsAlias() {
+					continue
+				}
+				nt, ok := tn.Type().(*types.Named)
+				if !ok || nt.TypeParams().Len() > 0 {
+					continue
+				}
+				if _, isI := nt.Underlying().(*types.Interface); isI {
+					continue
+				}
+				for _, cand := range []types.Type{nt, types.NewPointer(nt)} {
+					if types.Implements(cand, iface) && !listed[cand.String()] {
+						if _, isPtr := cand.(*types.Pointer); !isPtr && listed[types.NewPointer(nt).String()] {
+							continue
+						}
+						if _, isPtr := cand.(*types.Pointer); isPtr && types.Implements(nt, iface) {
+							continue // the value type implements it too and is reported itself
+						}
+						bad = append(bad, fmt.Sprintf("%s:%d: closed %s: %s implements it but is not listed", c.File, c.Line, c.Name, cand))
+					}
+				}
+			}
+		}
+	}
+	return bad
+}
+
+// headerParamNames: the parameter names written in a contract header "func[tags] (recv T) Name(a A, b B) R"
+func headerParamNames(head string) []string {
+	// skip the receiver group if any
+	h := head
+	if i := strings.Index(h, "]"); i >= 0 && strings.HasPrefix(strings.TrimSpace(h), "func[") {
+		h = h[i+1:]
+	} else {
+		h = strings.TrimPrefix(strings.TrimSpace(h), "func")
+	}
+	h = strings.TrimSpace(h)
+	if strings.HasPrefix(h, "(") {
+		depth := 0
+		for i, ch := range h {
+			if ch == '(' {
+				depth++
+			} else if ch == ')' {
+				depth--
+				if depth == 0 {
+					h = h[i+1:]
+					break
+				}
+			}
+		}
+	}
+	i := strings.Index(h, "(")
+	if i < 0 {
+		return nil
+	}
+	depth, start := 0, i+1
+	var params []string
+	for j := i; j < len(h); j++ {
+		switch h[j] {
+		case '(', '[':
+			depth++
+		case ')', ']':
+			depth--
+			if depth == 0 {
+				params = append(params, h[start:j])
+				j = len(h)
+			}
+		case ',':
+			if depth == 1 {
+				params = append(params, h[start:j])
+				start = j + 1
+			}
+		}
+	}
+	var names []string
+	for _, p := range params {
+		f := strings.Fields(strings.TrimSpace(p))
+		if len(f) >= 2 {
+			names = append(names, f[0])
+		} else {
+			names = append(names, "")
+		}
+	}
+	return names
 }
